@@ -290,6 +290,10 @@ func fillValue(v reflect.Value, depth int) {
 	case reflect.Bool:
 		v.SetBool(rng.Intn(2) == 1)
 	case reflect.Int, reflect.Int8, reflect.Int16, reflect.Int32, reflect.Int64:
+		if valueBits > 0 {
+			v.SetInt(narrowInt(valueBits))
+			return
+		}
 		v.SetInt(int64(rng.Uint64()))
 	case reflect.Uint, reflect.Uint8, reflect.Uint16, reflect.Uint32, reflect.Uint64, reflect.Uintptr:
 		v.SetUint(rng.Uint64())
@@ -365,6 +369,21 @@ func fillValue(v reflect.Value, depth int) {
 		}
 	case reflect.Func, reflect.UnsafePointer:
 		v.Set(reflect.Zero(t))
+	}
+}
+
+// valueBits > 0: signed integers are drawn from the range of a signed integer type of that many bits (C04: the values
+// put through a BiMapI lens across widths are those of the narrower type)
+var valueBits int
+
+// narrowInt: a value of the signed integer type of `bits` bits: the corners and -1, 0 now and then, else uniform
+func narrowInt(bits int) int64 {
+	lo := -(int64(1) << (bits - 1))
+	switch rng.Intn(8) {
+	case 0:
+		return []int64{lo, -lo - 1, -1, 0, lo + 1, 1}[rng.Intn(6)]
+	default:
+		return int64(rng.Uint64()) >> (64 - bits) // arithmetic shift: sign extended
 	}
 }
 
